@@ -494,6 +494,11 @@ class Evaluator:
                 if any(not isinstance(u, str) for u in head):
                     raise Unsupported("startswith reaching into a label")
                 return "".join(head) == pre
+            if f.attr in ("isdigit", "isalpha", "isupper", "islower", "isalnum") and isinstance(recv, (str, AStr)) and not args:
+                c = self.as_astr(recv).concrete()
+                if c is None:
+                    raise Unsupported("%s on an abstract string" % f.attr)
+                return getattr(c, f.attr)()
             if f.attr == "append" and isinstance(recv, list) and len(args) == 1:
                 recv.append(args[0])
                 return None
